@@ -43,14 +43,20 @@ func specStatusRank(s Status) int {
 // a change counts as waiting only if no task of it is running, aborting, or in an unknown status
 //@ func (*Change).isChangeWaiting
 //@   props C03
+//@   guard call isTaskWaiting: [direction] depsOf(arg2, arg3)
 //@   ensures result ==> forall j int :: 0 <= j && j < old(len(c.taskIDs)) ==> old(stOf(c.state.tasks[c.taskIDs[j]])) != DoingStatus && old(stOf(c.state.tasks[c.taskIDs[j]])) != UndoingStatus && old(stOf(c.state.tasks[c.taskIDs[j]])) != AbortStatus
 //@   loop 0: invariant -1 <= idx0 && idx0 < len(ranged0) && len(ranged0) == old(len(c.taskIDs))
 //@   loop 0: invariant forall j int :: 0 <= j && j < len(ranged0) ==> ranged0[j] == old(c.state.tasks[c.taskIDs[j]])
 //@   loop 0: invariant forall j int :: 0 <= j && j <= idx0 ==> old(stOf(c.state.tasks[c.taskIDs[j]])) != DoingStatus && old(stOf(c.state.tasks[c.taskIDs[j]])) != UndoingStatus && old(stOf(c.state.tasks[c.taskIDs[j]])) != AbortStatus
 
+// the dependencies followed from a task match its direction: what it waits for while in Do, what
+// waits for it while in Undo (frame: only the memo map and the log are written; assumed)
+//@ define depsOf(t *Task, deps []*Task) = (stOf(t) == DoStatus && len(deps) == len(t.waitTasks) && forall i int :: {deps[i]} 0 <= i && i < len(deps) ==> deps[i] == t.state.tasks[t.waitTasks[i]]) || (stOf(t) == UndoStatus && len(deps) == len(t.haltTasks) && forall i int :: {deps[i]} 0 <= i && i < len(deps) ==> deps[i] == t.state.tasks[t.haltTasks[i]])
+
 //@ func (*Change).isTaskWaiting
-//@   trusted
+//@   props C03
 //@   assigns Md:Str:Int Mv:Str:Int Mc:Str:Int Task.log State.modified
+//@   guard call isTaskWaiting: [direction] depsOf(arg2, arg3)
 
 //@ func (*Change).Status
 //@   props C03
